@@ -67,7 +67,10 @@ _CASE_RE = re.compile(r'^<<"(CASE[A-Z0-9_]*)", (".*")>>$')
 
 def parse_cases(stdout, into=None):
     cases = [] if into is None else into
-    for line in stdout.splitlines():
+    # split on '\n' only: atoms may contain U+0085 / U+2028, which
+    # str.splitlines() treats as line breaks
+    for line in stdout.split('\n'):
+        line = line.rstrip('\r')
         if not line.startswith('<<"CASE'):
             continue
         m = _CASE_RE.match(line.strip())
